@@ -23,6 +23,15 @@ import (
 	"strings"
 )
 
+// RunNewGroup is what `ergo new` does when it is not followed by one of its
+// sub-commands: it fails, naming the stray word.
+func RunNewGroup(commandPath string, args []string) error {
+	if len(args) == 0 {
+		return errors.New("usage: ergo new task|epic")
+	}
+	return fmt.Errorf("unknown command %q for %q", args[0], commandPath)
+}
+
 func RunInit(args []string, opts GlobalOptions) error {
 	dir := "."
 	if len(args) > 0 {
